@@ -298,7 +298,7 @@ SUBCHECKS = [
                   "offset:0": 50, "offset:1000000": 50, "source:False": 50, "source:string": 100,
                   "single-node": 10, "blank-comment": 30, "non-ascii-comment": 20, "deep-or-large": 4,
                   "ids-beyond-2^24": 150, "type-code-beyond-a-byte": 100, "comments-appended-after-construction": 123,
-                  "stored-as:utf-16": 30, "stored-as:utf-32": 30, "text-longer-than-1MiB": 4,
+                  "stored-as:utf-16": 20, "stored-as:utf-32": 20, "text-longer-than-1MiB": 4,
                   "written-before-then-edited-in-place": 150, "stream-positioned-after-a-preamble": 60,
                   "comment-equal-to-the-source-header-or-to-another-comment": 150, "read-after-a-failed-read": 150}),
 ]
